@@ -1004,7 +1004,7 @@ def make_builtins(interp):
     reg("hex", lambda v: hex(v) if not ops.is_sym(v) else _oor("hex() of symbolic int"))
     reg("round", lambda v, *a: round(v, *a) if not ops.is_sym(v) else _oor("round symbolic"))
     reg("pow", lambda a, c: ops.py_binop("**", a, c))
-    reg("vars", lambda o: o.attrs if isinstance(o, IObj) else _oor("vars"))
+    reg("vars", lambda o: o.attrs if isinstance(o, IObj) else (o.ns if isinstance(o, (IClass, IModule)) else _oor("vars")))
     reg("format", lambda v, spec="": format_value(interp, v, -1, spec))
 
     # type constructors with call behaviour
